@@ -32,6 +32,23 @@ schedule is an arbitrary list of thread indices.
   this mutex.
 Runtime assumptions (not modelled): `std::sync::Mutex` is a mutex, rayon pools are live, kernels
 are data-race free, `Arc` reference counting.
+
+What "exactly what it would return alone" means here: proved for validation errors, planning
+errors and `Ok` values; for a run in which a kernel fails only "both fail" is proved — which
+operator error is reported depends on the plan order (`Executor.c02_error_depends_on_order`).
+
+`c22_progress` / `c22_all_done` hold by construction of the three-state `Pc` (a call takes at
+most two steps); their content is that no step waits and that `create_plan` terminates.  Mutex
+poisoning is not represented: a panic *inside* a critical section would poison `cached_plan` and
+make every later `lock().unwrap()` panic.  The critical section contains `matches`,
+`create_plan` and `CachedPlan::new`; the planner model has no panic outcome (none was observed by
+C03's exhaustive correspondence runs), and `run_plan` — where the request-dependent panic sites
+are — runs after the unlock and is panic-free for accepted requests (`c26_run_never_panics`,
+`c26_partial_never_panics`), so no modelled panic occurs while a plan-cache mutex is held.
+
+Two executor models are used: `PlanCache.runPlan` (outcome classes and panic sites; no in-place
+taking) and C02's `Executor.runPlan` (values; in-place taking).  They share the graph IR, the
+plan and `PlanOK`; no refinement between them is proved.
 -/
 namespace RtenVerif.PlanCache
 open RtenVerif.Graph RtenVerif.Planner
@@ -359,6 +376,102 @@ theorem c22_never_panics {m : Mdl} (hwf : WFG m.g) (hwo : WFGo m.g) {c : Option 
       rcases hs with ⟨e, _, ho⟩ | ⟨plan, hargs, hok, ho⟩
       · rw [ho]; rfl
       · rcases runPlan_accepted hwf k.opsOk hargs hok with ⟨_, h⟩ | h <;> (rw [ho, h]; rfl)
+
+/-! ## Subgraph plan caches (`If` branches, `Loop` bodies)
+
+The graph of an `If` branch or `Loop` body has its own `cached_plan` mutex, shared by all
+concurrent runs and taken by `run_subgraph` with `is_subgraph = true`.  The cache lemmas are
+generic in `isSub`, so they lift to the whole family of graphs of a model: however the critical
+sections of however many threads on however many of these caches interleave (a list of lock
+events), every cache keeps its invariant and every critical section hands out a plan that is
+valid for the request it was asked for — with the graph's captures counted as available exactly
+when the graph is a subgraph. -/
+
+/-- Every cache of the family satisfies its invariant (`isSub` = "is not the top-level graph"). -/
+structure FamInv (graphs : List Graph) (caches : List (Option CachedPlan)) : Prop where
+  len : caches.length = graphs.length
+  inv : ∀ (i : Nat) (g : Graph) (c : Option CachedPlan), graphs[i]? = some g → caches[i]? = some c →
+    CacheInv g (isSubOf i) c
+
+theorem famInv_cold (graphs : List Graph) : FamInv graphs (graphs.map (fun _ => none)) := by
+  refine ⟨by simp, ?_⟩
+  intro i g c _ hc
+  simp only [List.getElem?_map] at hc
+  cases hg : graphs[i]? with
+  | none => simp [hg] at hc
+  | some _ => simp [hg] at hc; subst hc; trivial
+
+theorem lockStep_inv {graphs : List Graph} {caches : List (Option CachedPlan)} (e : LockEv)
+    (h : FamInv graphs caches) : FamInv graphs (lockStep graphs caches e).2 := by
+  unfold lockStep
+  cases hg : graphs[e.gi]? with
+  | none => exact h
+  | some g =>
+    cases hc : caches[e.gi]? with
+    | none => exact h
+    | some c =>
+      simp only
+      refine ⟨by simp [h.len], ?_⟩
+      intro i g' c' hg' hc'
+      by_cases hi : e.gi = i
+      · subst hi
+        rw [hg] at hg'; injection hg' with hg'; subst hg'
+        have hlt : e.gi < caches.length := (List.getElem?_eq_some_iff.mp hc).1
+        rw [List.getElem?_set_self hlt] at hc'
+        injection hc' with hc'; subst hc'
+        exact getCachedPlan_inv _ _ (h.inv _ _ _ hg hc)
+      · rw [List.getElem?_set_ne hi] at hc'
+        exact h.inv i g' c' hg' hc'
+
+theorem cachesAfter_inv {graphs : List Graph} (evs : List LockEv) :
+    ∀ {caches : List (Option CachedPlan)}, FamInv graphs caches →
+      FamInv graphs (cachesAfter graphs evs caches) := by
+  induction evs with
+  | nil => intro _ h; exact h
+  | cons e es ih => intro _ h; exact ih (lockStep_inv e h)
+
+/-- **C22.T1 for the whole family of plan caches.** After any sequence of critical sections on
+the caches of the top-level graph and of the `If`/`Loop` body graphs (any threads, any
+interleaving, valid or invalid requests), the next critical section `e` — top-level or nested —
+that returns a plan returns one that is valid, complete and minimal for `e`'s own request on
+`e`'s own graph, with `captures_available = is_subgraph`; and an error is `create_plan`'s error
+for that very request. -/
+theorem c22_nested_plan_valid {graphs : List Graph} {caches0 : List (Option CachedPlan)}
+    (h0 : FamInv graphs caches0) (evs : List LockEv) (e : LockEv) :
+    (∀ plan, (lockStep graphs (cachesAfter graphs evs caches0) e).1 = some (.ok plan) →
+      ∃ g, graphs[e.gi]? = some g ∧ ArgsOK g e.ins e.outs ∧
+        PlanOK g false (resolvedNew g e.ins (isSubOf e.gi)) e.outs plan) ∧
+    (∀ err, (lockStep graphs (cachesAfter graphs evs caches0) e).1 = some (.error err) →
+      ∃ g, graphs[e.gi]? = some g ∧ createPlan g e.ins e.outs (cacheOpts (isSubOf e.gi)) = .error err) := by
+  have hinv := cachesAfter_inv evs h0
+  generalize cachesAfter graphs evs caches0 = caches at hinv
+  unfold lockStep
+  cases hg : graphs[e.gi]? with
+  | none => constructor <;> (intro _ h; simp at h)
+  | some g =>
+    cases hc : caches[e.gi]? with
+    | none => constructor <;> (intro _ h; simp at h)
+    | some c =>
+      simp only [Option.some.injEq]
+      constructor
+      · intro plan h
+        obtain ⟨h1, h2⟩ := getCachedPlan_ok (hinv.inv _ _ _ hg hc) h
+        exact ⟨g, rfl, h1, h2⟩
+      · intro err h
+        exact ⟨g, rfl, getCachedPlan_error h⟩
+
+/-- Non-vacuity: a model with a top-level graph and one subgraph (with a capture); two threads'
+nested critical sections interleaved with top-level ones; the capture is available only
+because the graph is planned as a subgraph (last conjunct: planned as a top-level graph it is not). -/
+example :
+    let sub : Graph := { nodes := [.value, .value, .operator { inputs := [some 0], outputs := [some 1] }],
+                         captures := [0] }
+    lockTrace [wGraph, sub]
+      [⟨0, [0, 1], [2]⟩, ⟨1, [], [1]⟩, ⟨0, [1, 0], [2]⟩, ⟨1, [], [1]⟩, ⟨0, [0, 1], [4]⟩, ⟨1, [], [1, 1]⟩]
+      [none, none] = ['m', 'm', 'h', 'h', 'm', 'm'] ∧
+    (lockStep [wGraph, sub] [none, none] ⟨1, [], [1]⟩).1 = some (.ok [2]) ∧
+    (lockStep [sub] [none] ⟨0, [], [1]⟩).1 = some (.error .missingInput) := by
+  decide
 
 /-! ## T3 -/
 
